@@ -111,12 +111,14 @@ CLAIMED = {
          'Partial: that the Python decoders raise only where the model decoder rejects, and never block, is sampled '
          '(C01 malformed-input correspondence + this fuzzing), not proved.'),
  'C13': ('DESIGN.md §6 C13',
-         'Lean 4 single-pass liveness lemmas + invariants for every reachable state + fault enumeration on the real loop',
+         'Lean 4 liveness theorems over every schedule + invariants for every reachable state + fault enumeration on the real loop',
          'closes_after_eof / closes_by_artim: from every quiescent state of the loop model the pass that sees the peer\'s '
          'close, resp. the first quiet pass after ARTIM ran out in Sta2/Sta13, ends idle with the transport closed and the '
-         'user told; with the invariant holding in every reachable state this bounds every ending. On the real loop every '
+         'user told; peer_close_always_ends / silence_always_ends lift them to every network-only schedule that delivers '
+         'the close (any traffic, segmentation, timing before it) and to every spreading of the ARTIM period over silent '
+         'passes. On the real loop every '
          'conversation of a 17-scenario corpus is run with the peer disconnecting after every byte prefix, going silent '
-         'at every ARTIM point, a write failing in every turn, and disconnecting between outgoing fragments.',
+         'at every ARTIM point, a write failing in every turn, a connection reset, and disconnecting between outgoing fragments.',
          'Partial: sendall()/connect() are assumed to return or raise in bounded time (OS); a kill() forced on a '
          'non-idle provider leaves the socket to the garbage collector (outside the property\'s list of endings).'),
  'C09': ('DESIGN.md §6 C09',
